@@ -4,6 +4,9 @@ Frame lemmas about stored values: which actions can change `absVal`.
 import Lockable.Proofs.Steps3
 namespace Lockable
 
+@[simp] theorem wrap_val (s : State) (v : Nat) : (s.wrap v).val = v := by
+  unfold State.wrap; split <;> rfl
+
 def valOf : Option Entry → Option Nat
   | some m => m.value.map (·.val)
   | none => none
